@@ -122,6 +122,9 @@ class Cadence(collections.abc.MutableSequence):
         if isinstance(i, slice):
             return self.__class__(self.frames[i])
         elif isinstance(i, (list, np.ndarray, tuple)):
+            if isinstance(i, tuple):
+                # numpy would read a tuple as a multi-dimensional index
+                i = list(i)
             return self.__class__(np.array(self.frames)[i])
         else:
             return self.frames[i]
